@@ -157,9 +157,9 @@ def r16_2(ctx):
                     ctx.ok("R16.2", where(fa), f"macro {k.upper()} = {macros[k]}")
                 else:
                     ctx.bad("R16.2", fa.module, fa.qual, f"macro {k}: {ops}", f"fetch macro {k.upper()} no longer expands to the RFC 3501 list {macros[k]}", c.pattern.lineno)
-                if k == "full":
+                if k == "full" and ret and isinstance(ret[0].value, ast.List):
                     bsc = [e for e in ret[0].value.elts if isinstance(e, ast.Call) and norm(e.args[0]) == "FetchOp.BODYSTRUCTURE"]
-                    if bsc and isinstance(kwarg(bsc[0], "ext_data"), ast.Constant) and kwarg(bsc[0], "ext_data").value is False and kwarg(bsc[0], "actual_command").value == "BODY":
+                    if bsc and isinstance(kwarg(bsc[0], "ext_data"), ast.Constant) and kwarg(bsc[0], "ext_data").value is False and isinstance(kwarg(bsc[0], "actual_command"), ast.Constant) and kwarg(bsc[0], "actual_command").value == "BODY":
                         ctx.ok("R16.2", where(fa), "FULL's last item is the non-extensible BODY form", nontrivial=False)
                     else:
                         ctx.bad("R16.2", fa.module, fa.qual, "FULL: BODY", "FULL no longer ends with the non-extensible BODY form", c.pattern.lineno)
